@@ -156,6 +156,133 @@ theorem cache_first_read_path_unsound : ¬ DetectedEveryTime getBlockCacheFirst 
 
 example : readN getBlockCacheFirst witnessBad 2 {} = [.error .checksum, .ok (0, [65, 0, 0, 0])] := by decide +kernel
 
+/-! ## alterations BETWEEN reads, evictions
+
+`detected_every_time` reads ONE file content any number of times.  Here the file may change between any
+two reads (an alteration while the database stays open) and anything may leave the cache at any time
+(capacity 0, eviction).  The clause: **every block `get_block` takes from the file passes its checksum
+at THAT read** — there is no per-column memory of "already verified" — so whatever is returned was
+verified when it was loaded. -/
+
+theorem openBlock_false_of_true (b : Bytes) (r : Nat × Bytes) (h : openBlock true b = .ok r) :
+    openBlock false b = .ok r := by
+  simp only [openBlock, openBlockCfg] at h ⊢
+  by_cases hlen : b.length < BLOCK_META_SIZE
+  · rw [if_pos hlen] at h; cases h
+  · rw [if_neg hlen] at h ⊢
+    by_cases hbt : natOfBE ((b.drop (b.length - 16)).take 4) ≥ BLOCK_TYPE_COUNT
+    · rw [if_pos hbt] at h; cases h
+    · rw [if_neg hbt] at h ⊢
+      cases ht : CkType.ofCode? (natOfBE ((b.drop (b.length - 12)).take 4)) with
+      | none => rw [ht] at h; cases h
+      | some t =>
+        rw [ht] at h
+        simp only [↓reduceIte] at h ⊢
+        cases hv : verifyStored .crc32 t (b.take (b.length - BLOCK_META_CHECKSUM_SIZE))
+            (natOfBE ((b.drop (b.length - 8)).take 8)) with
+        | some e => rw [hv] at h; cases h
+        | none => rw [hv] at h; exact h
+
+/-- **per read**: a read that misses the cache returns `Ok` only if the bytes that are in the file AT
+THAT READ pass `openBlock true` (decode + `verify_stored_checksum`), whatever was read, verified or
+cached before -/
+theorem getBlock_verifies_at_that_read (c : BlockCache) (file : Bytes) (key off len : Nat)
+    (hmiss : c.get key = none) (r : Nat × Bytes) (h : (getBlock c file key off len).2 = .ok r) :
+    openBlock true ((file.drop off).take len) = .ok r := by
+  simp only [getBlock, hmiss] at h
+  split at h
+  · cases h
+  · split at h
+    · rename_i r' hr
+      simp only at h
+      rw [hr]; exact h
+    · cases h
+
+/-- every entry of the cache passed decode + checksum when it was loaded -/
+def CacheVerified (c : BlockCache) : Prop := ∀ e ∈ c.entries, ∃ r, openBlock true e.2 = .ok r
+
+theorem CacheVerified.get {c : BlockCache} (hc : CacheVerified c) {k : Nat} {b : Bytes}
+    (h : c.get k = some b) : ∃ r, openBlock true b = .ok r := by
+  simp only [BlockCache.get, Option.map_eq_some_iff] at h
+  obtain ⟨e, he, rfl⟩ := h
+  exact hc e (List.mem_of_find?_eq_some he)
+
+/-- one `get_block` against ANY file content keeps the cache verified, and whatever it returns is the
+content of a block that passed its checksum (now, or when it entered the cache) -/
+theorem getBlock_step (c : BlockCache) (file : Bytes) (key off len : Nat) (hc : CacheVerified c) :
+    CacheVerified (getBlock c file key off len).1
+    ∧ ∀ r, (getBlock c file key off len).2 = .ok r → ∃ b, openBlock true b = .ok r := by
+  cases hg : c.get key with
+  | some b =>
+    obtain ⟨r0, hr0⟩ := hc.get hg
+    simp only [getBlock, hg]
+    refine ⟨hc, fun r hr => ⟨b, ?_⟩⟩
+    rw [openBlock_false_of_true b r0 hr0] at hr
+    rw [hr0]; exact hr
+  | none =>
+    refine ⟨?_, fun r hr => ⟨_, getBlock_verifies_at_that_read c file key off len hg r hr⟩⟩
+    simp only [getBlock, hg]
+    split
+    · exact hc
+    · split
+      · rename_i r' hr
+        intro e he
+        simp only [BlockCache.insert, List.mem_cons, List.mem_filter] at he
+        rcases he with rfl | ⟨he, _⟩
+        · exact ⟨r', hr⟩
+        · exact hc e he
+      · exact hc
+
+/-- anything may leave the cache at any time (capacity 0, eviction) -/
+def BlockCache.evict (c : BlockCache) (keep : Nat → Bool) : BlockCache :=
+  { entries := c.entries.filter (fun e => keep e.1) }
+
+theorem CacheVerified.evict {c : BlockCache} (hc : CacheVerified c) (keep : Nat → Bool) :
+    CacheVerified (c.evict keep) := by
+  intro e he
+  simp only [BlockCache.evict, List.mem_filter] at he
+  exact hc e he.1
+
+/-- what can happen to an open column: a read of block (key, off, len) with the file AS IT IS AT THAT
+MOMENT (it may have been altered since the last read), or an eviction -/
+inductive ColStep
+  | read (file : Bytes) (key off len : Nat)
+  | evict (keep : Nat → Bool)
+
+def runSteps : BlockCache → List ColStep → List (Except ReadErr (Nat × Bytes))
+  | _, [] => []
+  | c, .read file key off len :: rest =>
+    (getBlock c file key off len).2 :: runSteps (getBlock c file key off len).1 rest
+  | c, .evict keep :: rest => runSteps (c.evict keep) rest
+
+/-- **Every block ever returned passed its checksum at the read that loaded it**, under ANY
+interleaving of reads, alterations of the file between reads, and evictions. -/
+theorem every_returned_block_was_verified (steps : List ColStep) :
+    ∀ (c : BlockCache), CacheVerified c → ∀ r, .ok r ∈ runSteps c steps → ∃ b, openBlock true b = .ok r := by
+  induction steps with
+  | nil => intro c _ r h; simp [runSteps] at h
+  | cons st rest ih =>
+    intro c hc r h
+    cases st with
+    | read file key off len =>
+      obtain ⟨h1, h2⟩ := getBlock_step c file key off len hc
+      simp only [runSteps, List.mem_cons] at h
+      rcases h with h | h
+      · exact h2 r h.symm
+      · exact ih _ h1 r h
+    | evict keep =>
+      simp only [runSteps] at h
+      exact ih _ (hc.evict keep) r h
+
+/-- the scenario of the seeded change s7c18 (a per-column "already verified" flag): read the pristine
+block, it leaves the cache, the file is altered, the block is read again — `Err`, not the altered
+payload; without the eviction the second read is a cache hit on the ORIGINAL payload (fine) -/
+example : runSteps {} [.read witnessGood 0 0 witnessGood.length, .evict (fun _ => false),
+      .read witnessBad 0 0 witnessBad.length]
+    = [.ok (0, [1, 0, 0, 0]), .error .checksum]
+  ∧ runSteps {} [.read witnessGood 0 0 witnessGood.length, .read witnessBad 0 0 witnessBad.length]
+    = [.ok (0, [1, 0, 0, 0]), .ok (0, [1, 0, 0, 0])] := by decide +kernel
+
 /-! ## background compaction reads the corrupted block first
 
 `Compactor::run` calls `compact_table` for every table on every pass (1 s timer) and only logs a
